@@ -266,9 +266,16 @@ M("c09_ping_failure_propagates", ["C09"],
 
 # ---- C13 -----------------------------------------------------------------
 M("c13_no_generator_exit_handler", ["C13"],
-  ("lomond/websocket.py", "        except GeneratorExit:\n            # The generator has exited prematurely, due to an exception\n            # handling the event.\n            log.warning('disconnecting websocket')\n            self.on_disconnect()",
-   "        except GeneratorExit:\n            # The generator has exited prematurely, due to an exception\n            # handling the event.\n            log.warning('disconnecting websocket')\n            self.on_disconnect()\n            raise"),
+  ("lomond/websocket.py", "            if self.state is state:\n                self.on_disconnect()\n",
+   "            if self.state is state:\n                self.on_disconnect()\n            raise\n"),
   equivalent=True)
+M("c17_revert_fix_stale_generator", ["C17"],
+  ("lomond/websocket.py", "            if self.state is state:\n                self.on_disconnect()\n",
+   "            if True:\n                self.on_disconnect()\n"))
+M("c17_stale_generator_never_disconnects", ["C13"],
+  ("lomond/websocket.py", "            if self.state is state:\n                self.on_disconnect()\n",
+   "            if self.state is not state:\n                self.on_disconnect()\n"),
+  equivalent=True)  # run()'s own finally still closes the socket and the selector: C13 holds
 M("c13_no_selector_close", ["C13"],
   ("lomond/session.py", "            self._close_socket()\n            selector.close()", "            self._close_socket()"))
 M("c13_revert_fix_finally", ["C13"],
@@ -332,8 +339,13 @@ M("c06_always_reset_compressor", ["C06"],
 M("c06_never_reset_compressor", ["C06"],
   ("lomond/compression.py", "        if self.reset_compress:\n            self.reset_compressor()", "        if False:\n            self.reset_compressor()"))
 M("c06_never_reset_decompressor", ["C06"],
-  ("lomond/compression.py", "        if self.reset_decompress:\n            self.reset_decompressor()", "        if False:\n            self.reset_decompressor()"),
+  ("lomond/compression.py", "        if self.reset_decompress or self._decompressobj.unused_data:", "        if self._decompressobj.unused_data:"),
   equivalent=True)  # a decompressor that keeps history the peer will not use decodes the same bytes
+M("c06_revert_fix_bfinal", ["C06"],
+  ("lomond/compression.py", "        if self.reset_decompress or self._decompressobj.unused_data:", "        if self.reset_decompress:"))
+M("c06_bfinal_reset_only_with_takeover_flag", ["C06"],
+  ("lomond/compression.py", "        if self.reset_decompress or self._decompressobj.unused_data:",
+   "        if self.reset_decompress and not self._decompressobj.unused_data or False:"))
 M("c06_compress_window_always_15", ["C06"],
   ("lomond/compression.py", "            -max(9, self.compress_wbits)", "            -15"))
 M("c06_only_first_frame_inflated", ["C06"],
